@@ -71,6 +71,18 @@ CLAIMS['C15'] = dict(
    text="Theorems (Props/C15.v) over the opcode tables regenerated from opcodes.json and the mode maps of operations.rs on every run: for every opcode, processor, register-width setting, assembler variant that goes with it, origin and operand VALUE (unbounded statement; the assembler's choice is shown to depend on the value only through the number of bytes it needs, which reduces the proof to a finite sweep re-run on every check), the instruction the disassembler lists is assembled back to exactly the original bytes - hence never different bytes, and success for valid instructions; block moves and operand-less instructions likewise; rel_to_abs/abs_to_rel are inverse for every pc; the opcode map is a function (only jmp/jml, jsr/jsl share codes); the lines of a disassembly tile the input exactly for every byte string (try_data_run never reaches past the range). Tie: the real disassembly text must equal the model's decisions rendered as text on generated byte strings; single source lines (incl. operand shapes the disassembler never writes) assemble to the model's bytes or are refused alike. PARTIAL: the text between the two tools (hex formatting, labels, columns, tree-sitter parse, expression evaluation) and the contents of data pseudo-ops are not modelled; covered by the oracle on the real pipeline dasm -> analyze -> spot_assemble: all 256 opcodes x operand classes x origins (bank edges, branch limits) x 4 processors x MX x variants, data runs of every recognised pattern, LUP blocks checked through an independent expansion.",
    technique="Coq proof (instruction round trip for all operand values via width-class sweep, relative conversion, tiling) over generated opcode tables + text/IR correspondence + real-pipeline oracle sweep",
    design_ref='DESIGN.md section 5 C15')
+CLAIMS['C16'] = dict(
+   text="Theorems (Props/C16.v), for every program (rows), selection and (first, step, move, bound) tuple: an accepted request maps the selected numbers in ascending order to first, first+step, ... within the upper bound; no new number collides with or falls between lines that keep theirs (duplicate / interleave refusal); without permission to move the block stays in place; replacements applied bottom-up from the right equal the simultaneous substitution of every range with all other text in place, whatever the new lengths. Tie: the decision model (refusal, new numbers by row, insert position) must equal Renumberer::renumber on generated requests; apply_edits must equal the model on generated edit lists. PARTIAL: where the line-number nodes are comes from the tree-sitter walk (not modelled); covered by the oracle, which builds Applesoft/Integer programs whose every definition and reference position is known to the generator and requires the exact expected text (all references retargeted, spacing and everything else unchanged, CRLF and blank lines kept) or a refusal exactly when the request would duplicate, exceed the bound, interleave, select nothing, or need a move that was not allowed.",
+   technique="Coq proof (mapping arithmetic, collision/interleave refusal, bottom-up edit application = substitution) + decision/apply_edits correspondence + exact-text oracle from generator structure",
+   design_ref='DESIGN.md section 5 C16')
+CLAIMS['C17'] = dict(
+   text="Theorems (Props/C17.v) over the keyword list and guard table regenerated from token_maps.rs / minify_guards.rs on every run: when the computed guard reports no hazard the machine (greedy keyword recognition from the left) reads the shortened name character by character and then reads what follows exactly as on its own, for EVERY following text - no reserved word is created; every reported hazard is real; the old guard table is covered by the computation; every deleted line is mapped to a line that still exists after the deletions, lies after it and is the first kept line from the cursor on (trailing deleted lines are kept). Tie: guard decisions observed on name+follower lines and the reference retargeting observed on REM/GOTO programs must equal the extracted model; the shape of forms_hidden_token/needs_guard is checked textually by the translator. PARTIAL: which nodes are variables, references or REM-only lines comes from the tree-sitter walk, and line combining is not modelled; covered by the oracle: for every generated program (variable names of every accepted shape incl. ones beginning like keywords, REM-only branch targets in every position, trailing strings, PRINT separators, juxtaposed PRINT items) and levels 1-3 the output must verify, tokenize, not grow, and reduce to the same canonical statement sequence (strings and DATA byte for byte, variables under the two-character rule, keyword tokens identical) with every reference pointing at the same statement.",
+   technique="Coq proof (hidden-token guard soundness for all following texts, table coverage, reference map) over generated keyword/guard tables + guard/refmap correspondence + statement-sequence oracle",
+   design_ref='DESIGN.md section 5 C17')
+CLAIMS['C18'] = dict(
+   text="Theorems (Props/C18.v) for EVERY schedule - any interleaving of client notifications, analysis threads finishing in any order or dying, and main-loop passes: published diagnostics are a subsequence of what was sent, in the order sent; when no thread dies nothing is lost, so once the queue has drained the last publish for a document is for its last version; after a thread has died holding the analyzer lock nothing is ever published again (the hazard the property names is real in the model). Tie: the translator reads off the three main loops and handlers that only the front handle is harvested, handles are pushed at the back, and analyze + get_diags happen under one lock acquisition with the document's own version (Gen/ServerSites.v, re-proved each run). PARTIAL: what an analysis computes and the stdio transport are not modelled. Impl side: the real server binaries (built with the guarded delay hooks, cfg a2kit_verif) are driven over LSP with generated open/change histories on 1-3 documents incl. syntactically broken and degenerate texts, with per-version delays before and inside the lock that force out-of-order completion; checked: versions per document strictly increasing in arrival order, last publish = last version sent, its diagnostics = those of a fresh server given only the final texts, the server still answers a request afterwards.",
+   technique="Coq proof over all schedules of the queue/lock state machine + translator tie to the three main loops + real-binary LSP oracle with forced reordering (guarded hooks)",
+   design_ref='DESIGN.md section 5 C18')
 PLANNED = {f'C{i:02d}': 'check not built yet in this round (planned; see DESIGN.md section 10)' for i in range(1, 21)}
 
 def main():
